@@ -239,3 +239,29 @@ claim("C12",
            "the small-q regime (the implementation's sums cancel like 1/(|q| size)^2; measured 2e-8 V).",
       technique="TLA+ model checking (TLC) with exact Gaussian-integer Fourier sums + spec-to-code replay",
       design_ref="DESIGN.md 5 C12")
+
+
+claim("C17",
+      text="spec/Families.tla transcribes the plane tables of the 323+ and 423 truncation families and computes, for every point of "
+           "rational parameter grids (interior, edges, corners, points a few 1e-4 from the degenerate loci, points outside the "
+           "domain), the exact vertex set of the half-space intersection by integer Cramer's rule, the minimal vertex separation "
+           "and the domain verdict (T1: the corners are the documented solids by vertex count); get_shape must return exactly "
+           "that set (ValueError only if vertices are closer than 1e-4), TruncatedTetrahedronFamily is the a = 1 edge, "
+           "out-of-domain values (by 1e-9, by 1, nan) raise ValueError; spec/UniformFamilies.tla gives (V,E,F) and face-degree "
+           "multisets of the n-gon, prism, antiprism, pyramid and dipyramid families for every n and the documented corner "
+           "solids of Family523, checked together with unit volume/area, centring, equal edges and regular faces.",
+      note="Family523 is decided at its corners and domain boundary only (exact Q(sqrt5) intersection not built); uniform families' "
+           "metric facts are float relations on the implementation's output.",
+      technique="TLA+ model checking (TLC) of exact half-space intersections over parameter grids + spec-to-code replay",
+      design_ref="DESIGN.md 5 C17")
+
+claim("C18",
+      text="spec/Tabulated.tla holds the textbook (V,E,F) table of the Platonic, Archimedean and Catalan solids (duality, Euler and "
+           "distinctness proved by TLC), all family sizes, and the loader protocol of the DOI repositories as a state machine "
+           "(LoaderMonotone, Idempotent; every transition replayed on a fresh mapping); all 290 entries are enumerated "
+           "exhaustively: class, counts vs. table, iteration order and identity with get_shape incl. after the caller mutated a "
+           "yielded shape, unknown names/DOIs, cross-references of the science.1220869 repository, and unit volume, equal edges, "
+           "regular faces, insphere on the implementation's vertices.",
+      note="Metric predicates are float relations; Johnson solids have no per-solid reference counts in the table.",
+      technique="TLA+ reference table and loader state machine checked by TLC + exhaustive conformance over all entries",
+      design_ref="DESIGN.md 5 C18")
